@@ -53,6 +53,26 @@ pub struct CertSpec {
     pub names: Vec<String>,
     pub validity: Validity,
     pub p256: bool,
+    /// shape of the subject-alternative-name extension: "dns" (the names), "absent" (no SAN at
+    /// all), "iponly" (one IP address, no DNS name), "garbled" (a SAN extension whose SEQUENCE
+    /// holds a UTF8String instead of a GeneralName)
+    pub san_kind: &'static str,
+    /// another identity's complete Ed25519 SubjectPublicKeyInfo planted in the serial number
+    /// (before the real SPKI) and in a private extension (after it)
+    pub decoy: Option<[u8; 32]>,
+}
+
+impl CertSpec {
+    pub fn plain(subject_seed: [u8; 32], signer_seed: Option<[u8; 32]>, names: Vec<String>) -> Self {
+        Self { subject_seed, signer_seed, names, validity: Validity::Ok, p256: false, san_kind: "dns", decoy: None }
+    }
+}
+
+/// DER of the SubjectPublicKeyInfo of an Ed25519 key
+pub fn ed25519_spki(public_key: &[u8; 32]) -> Vec<u8> {
+    let mut v = vec![0x30, 0x2a, 0x30, 0x05, 0x06, 0x03, 0x2b, 0x65, 0x70, 0x03, 0x21, 0x00];
+    v.extend_from_slice(public_key);
+    v
 }
 
 pub struct Minted {
@@ -62,7 +82,25 @@ pub struct Minted {
 }
 
 pub fn mint(spec: &CertSpec) -> Minted {
-    let mut params = CertificateParams::new(spec.names.clone()).unwrap();
+    let mut params = CertificateParams::new(if spec.san_kind == "dns" { spec.names.clone() } else { vec![] }).unwrap();
+    match spec.san_kind {
+        "iponly" => params.subject_alt_names = vec![rcgen::SanType::IpAddress("10.1.2.3".parse().unwrap())],
+        "garbled" => {
+            // SEQUENCE { UTF8String name }: well-formed DER, not a GeneralName
+            let name = spec.names.first().cloned().unwrap_or_default().into_bytes();
+            let mut content = vec![0x30, (name.len() + 2) as u8, 0x0c, name.len() as u8];
+            content.extend_from_slice(&name);
+            params.custom_extensions.push(rcgen::CustomExtension::from_oid_content(&[2, 5, 29, 17], content));
+        }
+        _ => {}
+    }
+    if let Some(victim) = spec.decoy {
+        let spki = ed25519_spki(&crate::sim::peer_id_of(&victim).0);
+        let mut serial = vec![0x01];
+        serial.extend_from_slice(&spki);
+        params.serial_number = Some(rcgen::SerialNumber::from_slice(&serial));
+        params.custom_extensions.push(rcgen::CustomExtension::from_oid_content(&[1, 3, 6, 1, 4, 1, 99999, 1], spki));
+    }
     let now = time::OffsetDateTime::now_utc();
     match spec.validity {
         Validity::Ok => {}
@@ -231,6 +269,63 @@ fn certified(
     let key = rustls::crypto::ring::sign::any_supported_type(signing_key).expect("signing key");
     // rustls does not check that the key matches the certificate
     Arc::new(rustls::sign::CertifiedKey::new(chain, key))
+}
+
+/// A "signing key" that labels its CertificateVerify with `scheme` and fills it with junk: what a
+/// party without the private key can always send.
+#[derive(Debug)]
+struct JunkSigner(rustls::SignatureScheme);
+
+impl rustls::sign::SigningKey for JunkSigner {
+    fn choose_scheme(&self, _offered: &[rustls::SignatureScheme]) -> Option<Box<dyn rustls::sign::Signer>> {
+        Some(Box::new(JunkSigner(self.0)))
+    }
+    fn algorithm(&self) -> rustls::SignatureAlgorithm {
+        rustls::SignatureAlgorithm::ED25519
+    }
+}
+
+impl rustls::sign::Signer for JunkSigner {
+    fn sign(&self, message: &[u8]) -> Result<Vec<u8>, rustls::Error> {
+        Ok(message.iter().cycle().take(64).map(|b| b ^ 0x5a).collect())
+    }
+    fn scheme(&self) -> rustls::SignatureScheme {
+        self.0
+    }
+}
+
+pub fn scheme_named(name: &str) -> rustls::SignatureScheme {
+    match name {
+        "ed448" => rustls::SignatureScheme::ED448,
+        "ecdsa" => rustls::SignatureScheme::ECDSA_NISTP256_SHA256,
+        "unknown" => rustls::SignatureScheme::Unknown(0x0b0b),
+        _ => rustls::SignatureScheme::ED25519,
+    }
+}
+
+fn certified_junk(chain: Vec<CertificateDer<'static>>, scheme: rustls::SignatureScheme) -> Arc<rustls::sign::CertifiedKey> {
+    Arc::new(rustls::sign::CertifiedKey::new(chain, Arc::new(JunkSigner(scheme))))
+}
+
+/// Like `client_config`, but the proof of possession is junk labelled with `scheme`.
+pub fn client_config_junk_proof(chain: Vec<CertificateDer<'static>>, scheme: rustls::SignatureScheme) -> quinn::ClientConfig {
+    let crypto = rustls::ClientConfig::builder_with_provider(provider())
+        .with_protocol_versions(&[&rustls::version::TLS13])
+        .unwrap()
+        .dangerous()
+        .with_custom_certificate_verifier(Arc::new(AcceptAnyServer))
+        .with_client_cert_resolver(Arc::new(FixedClientCert(certified_junk(chain, scheme))));
+    quinn::ClientConfig::new(Arc::new(quinn::crypto::rustls::QuicClientConfig::try_from(crypto).unwrap()))
+}
+
+/// Like `server_config`, but the proof of possession is junk labelled with `scheme`.
+pub fn server_config_junk_proof(chain: Vec<CertificateDer<'static>>, scheme: rustls::SignatureScheme) -> quinn::ServerConfig {
+    let crypto = rustls::ServerConfig::builder_with_provider(provider())
+        .with_protocol_versions(&[&rustls::version::TLS13])
+        .unwrap()
+        .with_client_cert_verifier(Arc::new(AcceptAnyClient { mandatory: false }))
+        .with_cert_resolver(Arc::new(FixedServerCert(certified_junk(chain, scheme))));
+    quinn::ServerConfig::with_crypto(Arc::new(quinn::crypto::rustls::QuicServerConfig::try_from(crypto).unwrap()))
 }
 
 fn provider() -> Arc<rustls::crypto::CryptoProvider> {
